@@ -135,6 +135,7 @@ int SimFS::check_fault(const std::string &call) {
 	auto it = faults.find({call, n});
 	if (it != faults.end()) {
 		if (counters) (*counters)["fault.F-SYSCALL"]++;
+		pending_injected = true;
 		return it->second;
 	}
 	return 0;
@@ -142,6 +143,12 @@ int SimFS::check_fault(const std::string &call) {
 
 void SimFS::record(FsLog &l) {
 	l.clock = (uint64_t) clock;
+	if (pending_injected) {
+		l.injected = true;
+		pending_injected = false;
+		// descriptor-based calls: remember where the object was when the call failed (it may be removed next)
+		if (l.path.empty() && l.ino >= 0) l.path = path_of(l.ino);
+	}
 	log.push_back(l);
 	if (on_op) on_op(log.back());
 }
